@@ -125,7 +125,7 @@ def corpus(tier, seed):
 def run(tier, seed):
     chk = C.Check(PID, tier, seed, level="proof")
     ok, log = C.coq_build()
-    obl = C.prop_obligations(PID, files=["Prop_C01.v", "Prop_C01_types.v"]) if ok else dict(theorems=[], axioms={}, ok=False, log=log)
+    obl = C.prop_obligations(PID, files=["Prop_C01.v", "Prop_C01_types.v", "Prop_C01_texp.v"]) if ok else dict(theorems=[], axioms={}, ok=False, log=log)
     if not ok or not obl["ok"]:
         chk.broken("theorems of Prop_C01.v do not check", (log + obl.get("log", ""))[-3000:])
         return chk.finish(obl)
@@ -185,7 +185,28 @@ def run(tier, seed):
             chk.broken("types-layer model (M_Types.v) and implementation differ", tc["mismatches"][:8])
     except ImportError:
         types_cov = dict(note="types-layer correspondence module not present")
+    # the translator layer (M_Texp.v): model <-> translate_expression / translate_statement on the
+    # normalised AST, the reference evaluator <-> the shadow run, instances of the corollaries
+    texp_cov = {}
+    if "theories/Chk_Texp.v" in open(os.path.join(C.COQ, "_CoqProject")).read():
+        from . import c01_texp
+        xc = c01_texp.collect(tier, seed)
+        texp_cov = dict(cases=xc["cases"], distinct=xc["distinct"], distribution=xc["distribution"], unmodelled=xc["unmodelled"],
+                        evaluator_vs_shadow=xc["evaluator_vs_shadow"], corollary_instances=xc["corollary_instances"], timings=xc["timings"])
+        for f in xc["impl_failures"][:10]:
+            if (f.get("source"), "exact") in reported or (f.get("source"), "wrapped") in reported:
+                continue
+            chk.violation("the expressions of a translated program do not encode the value the Python function returns", f)
+        if xc["mismatches"] and not xc["impl_failures"]:
+            chk.broken("translator model (M_Texp.v) and translate_expression / translate_statement differ", xc["mismatches"][:8])
+        if xc["coq_errors"] or xc["harness_errors"]:
+            chk.broken("the translator-layer case files did not evaluate", (xc["coq_errors"] + xc["harness_errors"])[:4])
+        if xc["corollary_instances"]["failing_inside_guards"]:
+            chk.broken("an instance of a proved corollary of Prop_C01_texp.v evaluates to false", xc["corollary_instances"]["failing_inside_guards"][:4])
+        if xc["evaluator_vs_shadow"]["DISAGREE_UNEXPLAINED"] > 0:
+            chk.broken("the reference evaluator of M_Texp.v and the shadow execution disagree", xc["evaluator_vs_shadow"]["unexplained_programs"][:6])
     chk.coverage.update(
+        translator_layer=texp_cov,
         programs=len(distinct), evaluations=tot["evaluated"], distinct_nontrivial=len(distinct),
         rule="corpus = suite programs + structural templates + every operator x width pair in {2,3,4}^2 + seeded random boolean and "
              "integer programs (mixed widths, constants, comparisons, if/else, loops) + a malformed stream, under both optimizer profiles; "
